@@ -152,6 +152,11 @@ PSCEN = [
     ['NEW', '10 WHILE X<3:X=X+1:GOSUB 100:WEND', '20 END', '100 FOR I=1 TO 2:NEXT:RETURN {l}', 'RUN', 'WEND', 'NEXT', 'RETURN'],
     # a syntax error leaves an edit prompt pending for a line that is then deleted, replaced or lost
     ['NEW', '10 PRINT "a":X=)', '20 PRINT 2', 'RUN', 'DELETE 10', '@interact', 'RUN', '20 X=(', 'RUN', 'NEW', '@interact'],
+    # damaged program files: load, then everything that walks the program
+    ['LOAD "BAD1.BAS"', 'LIST', 'SAVE "Z9",A', 'LLIST', 'RENUM', 'RUN', 'EDIT 10', '@interact'],
+    ['LOAD "BAD3.BAS"', 'LIST', 'DELETE 10', 'SAVE "Z9",A', 'MERGE "BAD2.BAS"', 'LIST', 'CHAIN "BAD4.BAS"'],
+    # memory blocks at the edges of the address space
+    ['DEF SEG=&HFFFF', 'BSAVE "M.BIN",0,100', 'BLOAD "M.BIN",0', 'DEF SEG={n}', 'BSAVE "M.BIN",{n},{n}', 'BLOAD "M.BIN",{n}', 'BLOAD "M.BIN"', 'DEF SEG'],
     # sound that never ends by itself, across a restart and a checkpoint
     ['SOUND 440,65535', '@restart', 'SOUND {n},65535', '@restart', 'SOUND 440,65535:SOUND 0,0', 'PLAY "MBL1CDE"', '@checkpoint', '@restart', 'X=PLAY(0)', 'SOUND 37,0'],
     # palette and pointer statements into arrays with odd subscripts
@@ -199,7 +204,7 @@ def gen(rng, tier, prop):
     n = rng.randint(8, 45 if tier == 'quick' else 200)
     faulty = rng.random() < 0.6
     ops = []
-    for k, kind in enumerate(['empty', 'ff', 'fe', 'fe1', 'fc', 'text', 'torn']):
+    for k, kind in enumerate(['empty', 'ff', 'fe', 'fe1', 'fc', 'text', 'torn', 'cutnum']):
         if rng.random() < 0.5:
             ops.append({'op': 'mkfile', 'name': 'BAD%d.BAS' % (rng.randint(1, 4)), 'kind': kind,
                         'bytes': ''.join(chr(rng.randrange(256)) for _ in range(rng.choice([0, 1, 2, 3, 17, 200])))})
@@ -329,6 +334,10 @@ def _mkfile(root, op):
         data = b'10 PRINT 1\r\nPRINT 2\r\n70000 X\r\n20 ' + data.replace(b'\r', b'').replace(b'\n', b'') + b'\r\n\x1a'
     elif kind == 'torn':
         data = b'\xff\x7a\x12\x0a\x00\x91\x20\x22' + data
+    elif kind == 'cutnum':
+        # a tokenised program cut off in the middle of a number token
+        lead = [b'\x1c\x01', b'\x1d\x00\x00', b'\x1f\x00\x00\x00', b'\x0f', b'\x0e\x10', b'\x0b', b'\x0c\x01', b'\x1c'][len(data) % 8]
+        data = b'\xff\x7a\x12\x0a\x00\x91\x20' + lead
     with open(os.path.join(mount, op['name']), 'wb') as f:
         f.write(data)
 
